@@ -14,8 +14,13 @@ Section Ctors.
   Proof. intros. unfold zeros. apply new_exact; auto. apply repeat_length. Qed.
   Theorem ones_def : forall r c, 0 < r -> 0 < c -> ones O r c = Some (mkMat r c (repeat (one O) (r * c))).
   Proof. intros. unfold ones. apply new_exact; auto. apply repeat_length. Qed.
-  Theorem zeros_ones_reject : forall r c, r = 0 \/ c = 0 -> zeros O r c = None /\ ones O r c = None.
-  Proof. intros. unfold zeros, ones. split; now apply new_zero. Qed.
+  (** a zero dimension is refused -- except 0 x 0 (repaired [reshape_mut]: [zeros(0, 0)] is the empty matrix; the
+      original code refused it too, and this lemma said so) *)
+  Theorem zeros_ones_reject : forall r c, r = 0 \/ c = 0 -> ~ (r = 0 /\ c = 0) ->
+    zeros O r c = None /\ ones O r c = None.
+  Proof. intros r c H Hn. unfold zeros, ones. split; apply new_zero; auto; tauto. Qed.
+  Theorem zeros_ones_empty : zeros O 0 0 = Some (mkMat 0 0 []) /\ ones O 0 0 = Some (mkMat 0 0 []).
+  Proof. split; reflexivity. Qed.
 
   (** diagonal positions *)
   Lemma exists_diag_pos : forall n i j, i < n -> j < n ->
@@ -41,7 +46,8 @@ Section Ctors.
       destruct (i =? j); auto. apply nth_repeat'.
   Qed.
 
-  Theorem eye_zero : eye O 0 = None.
+  (** [eye(0)] is the empty matrix (the original code panicked in [zeros(0, 0)]) *)
+  Theorem eye_zero : eye O 0 = Some (mkMat 0 0 []).
   Proof. reflexivity. Qed.
 
   Theorem diag_matrix_def : forall a, let n := length a in
